@@ -501,6 +501,17 @@ class Fn:
                     out.append((t["cond"], i == 0, b))
         return out
 
+    def reachable_without(self, pos, edge_pred):
+        """Is pos's block still reachable from the entry when every branch edge (cond, polarity) for
+        which edge_pred(cond_atom, polarity) holds is removed? (disjunctive guards: 'S only under A or B')"""
+        removed = set()
+        for b, t in self.branch_blocks():
+            for i in (0, 1):
+                a, pol = normalize_cond(t["cond"], i == 0)
+                if edge_pred(a, pol):
+                    removed.add((b, i))
+        return pos.b in self.reachable_blocks(removed_edges=removed), removed
+
     def guard_atoms(self, pos, extra_edges=None):
         """guards() normalised: negations and __builtin_expect / casts stripped:
         [(atom_expr, polarity, block)]."""
